@@ -31,6 +31,10 @@ pub fn build_fixtures(w: &WorkDir, thorough: bool) -> (Vec<Fixture>, Vec<Fixture
 		w.write(&name, &json_of_size(n, "k"));
 		good.push(Fixture { name, fails: false });
 	}
+	for (name, data) in [("empty-tail-str.json", &b"{\"k\":\"\"}\n"[..]), ("empty-tail-arr.json", b"[\"x\",[]]\n[]\n"), ("empty-tail-map.yaml", b"a: 1\n---\n{}\n"), ("empty-doc.json", b"\"\"\n")] {
+		w.write(name, data);
+		good.push(Fixture { name: name.into(), fails: false });
+	}
 	w.write("small.yaml", b"y: 1\n---\n- 2\n");
 	good.push(Fixture { name: "small.yaml".into(), fails: false });
 	w.write("small.msgpack", b"\x81\xa1m\x01");
